@@ -169,7 +169,8 @@ theorem listInsertH_spec (h : Heap) (hv : HVal) (vs : List V) (F : List Nat) (i 
       ∧ (∀ a, a ∈ F' → a < h'.next)
       ∧ (∀ a, a < h.next → a ∉ F → h'.cell a = h.cell a)
       ∧ (∀ a, a ∈ F → a ∉ F' → h'.cell a = none)
-      ∧ (∀ a, h.next ≤ a → a < h'.next → a ∈ F') := by
+      ∧ (∀ a, h.next ≤ a → a < h'.next → a ∈ F')
+      ∧ (∀ a, a ∈ F' → a ∈ F ∨ h.next ≤ a) := by
   simp only [Rep] at hr
   generalize hbn : buildNew h (x.getD .unk) = r
   obtain ⟨c, h1⟩ := r
@@ -179,7 +180,7 @@ theorem listInsertH_spec (h : Heap) (hv : HVal) (vs : List V) (F : List Nat) (i 
     have hi0 : i = 0 := by simpa using hi
     subst hi0
     have e2 := Ext.alloc h1 (.arr [c] (growCap 0)) e1.wf
-    refine ⟨.lst (some h1.next) 1, (alloc h1 (.arr [c] (growCap 0))).2, Fc ++ [c] ++ [] ++ [h1.next], ?_, ?_, e2.wf, ?_, ?_, ?_, ?_⟩
+    refine ⟨.lst (some h1.next) 1, (alloc h1 (.arr [c] (growCap 0))).2, Fc ++ [c] ++ [] ++ [h1.next], ?_, ?_, e2.wf, ?_, ?_, ?_, ?_, ?_⟩
     · simp [listInsertH, hbn, alloc]
     · simp only [List.insertIdx_zero, Rep]
       refine Or.inr ⟨h1.next, [c], growCap 0, Fc ++ [c] ++ [], rfl, by simp [alloc_cell], by simp [growCap], ?_, ?_, rfl⟩
@@ -211,6 +212,13 @@ theorem listInsertH_spec (h : Heap) (hv : HVal) (vs : List V) (F : List Nat) (i 
         · exact Or.inl (Or.inl hh)
         · exact Or.inl (Or.inr hh)
       · exact Or.inr (by omega)
+    · intro a ha
+      simp only [List.append_nil, List.mem_append, List.mem_singleton] at ha
+      have := e1.le
+      rcases ha with (ha | ha) | ha
+      · exact Or.inr (hrange a ha).1
+      · exact Or.inr (by omega)
+      · exact Or.inr (by omega)
   · -- an existing pointer array
     have hlen := RepElems_length h vs xs F1 hel
     have harrlt : arr < h.next := hF arr (by simp)
@@ -232,7 +240,7 @@ theorem listInsertH_spec (h : Heap) (hv : HVal) (vs : List V) (F : List Nat) (i 
       have harr2 : (alloc h1 (.arr (xs.insertIdx i c) (growCap cap))).2.cell arr = some (.arr xs cap) := by
         rw [alloc_cell_lt h1 _ arr (by have := e1.le; omega)]; exact harr1
       obtain ⟨h3, hf3, hn3, hc3⟩ := free_spec _ arr _ harr2
-      refine ⟨.lst (some h1.next) (xs.length + 1), h3, F1' ++ [h1.next], ?_, ?_, ?_, ?_, ?_, ?_, ?_⟩
+      refine ⟨.lst (some h1.next) (xs.length + 1), h3, F1' ++ [h1.next], ?_, ?_, ?_, ?_, ?_, ?_, ?_, ?_⟩
       · have : ¬ i > xs.length := by omega
         simp [listInsertH, this, hbn, read, harr1, hfull, alloc, hf3] at *
       · simp only [Rep]
@@ -295,13 +303,22 @@ theorem listInsertH_spec (h : Heap) (hv : HVal) (vs : List V) (F : List Nat) (i 
           · exact Or.inl ((hmem a).mpr (Or.inr (Or.inl hh)))
           · exact Or.inl ((hmem a).mpr (Or.inr (Or.inr hh)))
         · exact Or.inr (by omega)
+      · intro a ha
+        simp only [List.mem_append, List.mem_singleton] at ha
+        have := e1.le
+        rcases ha with ha | ha
+        · rcases (hmem a).mp ha with hh | hh | hh
+          · exact Or.inl (by simp [hh])
+          · exact Or.inr (hrange a hh).1
+          · exact Or.inr (by omega)
+        · exact Or.inr (by omega)
     · -- room left: the array block is rewritten in place
       have hroom : xs.length < cap := by omega
       have hw2 : ∃ h2, write h1 arr (.arr (xs.insertIdx i c) cap) = some h2 ∧ h2.next = h1.next
           ∧ ∀ a, h2.cell a = if a = arr then some (.arr (xs.insertIdx i c) cap) else h1.cell a := by
         unfold write; rw [harr1]; exact ⟨_, rfl, rfl, fun _ => rfl⟩
       obtain ⟨h2, hwr, hn2, hc2⟩ := hw2
-      refine ⟨.lst (some arr) (xs.length + 1), h2, F1' ++ [arr], ?_, ?_, ?_, ?_, ?_, ?_, ?_⟩
+      refine ⟨.lst (some arr) (xs.length + 1), h2, F1' ++ [arr], ?_, ?_, ?_, ?_, ?_, ?_, ?_, ?_⟩
       · have : ¬ i > xs.length := by omega
         simp [listInsertH, this, hbn, read, harr1, hfull, hwr]
       · simp only [Rep]
@@ -351,6 +368,14 @@ theorem listInsertH_spec (h : Heap) (hv : HVal) (vs : List V) (F : List Nat) (i 
         rcases hcover a h1' h2' with hh | hh
         · exact Or.inl ((hmem a).mpr (Or.inr (Or.inl hh)))
         · exact Or.inl ((hmem a).mpr (Or.inr (Or.inr hh)))
+      · intro a ha
+        simp only [List.mem_append, List.mem_singleton] at ha
+        rcases ha with ha | ha
+        · rcases (hmem a).mp ha with hh | hh | hh
+          · exact Or.inl (by simp [hh])
+          · exact Or.inr (hrange a hh).1
+          · exact Or.inr (by omega)
+        · exact Or.inl (by simp [ha])
 
 /-! ### cif_value_remove_element_at -/
 
@@ -519,7 +544,8 @@ theorem entryRespell_spec (h : Heap) (hw : h.WF) (e : Nat) (k ko : Str) (v : V) 
     ∃ h' F', entryRespell false h e key = some h' ∧ RepEntry h' e k key v F' ∧ h'.WF ∧ entryKey h' e = some k
       ∧ (∀ a, a < h.next → a ∉ F → h'.cell a = h.cell a)
       ∧ (∀ a, a ∈ F → a ∉ F' → h'.cell a = none)
-      ∧ (∀ a, h.next ≤ a → a < h'.next → a ∈ F') ∧ (∀ a, a ∈ F' → a < h'.next) := by
+      ∧ (∀ a, h.next ≤ a → a < h'.next → a ∈ F') ∧ (∀ a, a ∈ F' → a < h'.next)
+      ∧ (∀ a, a ∈ F' → a ∈ F ∨ h.next ≤ a) := by
   obtain ⟨hv, ka, koa, F1, he, hka, hkoa, hrep, heF, hkaF, hkoaF, heka, hekoa, hFs⟩ := hr
   have memF : ∀ a, a ∈ F ↔ (a = ka ∨ a = koa ∨ a ∈ F1 ∨ a = e) := by
     intro a
@@ -541,7 +567,7 @@ theorem entryRespell_spec (h : Heap) (hw : h.WF) (e : Nat) (k ko : Str) (v : V) 
   · -- same spelling: nothing happens
     subst hsame
     refine ⟨h, F, by simp [entryRespell, read, he, hkoa], ⟨hv, ka, koa, F1, he, hka, hkoa, hrep, heF, hkaF, hkoaF, heka, hekoa, hFs⟩,
-      hw, hkey0, fun _ _ _ => rfl, fun a ha hna => absurd ha hna, fun a h1 h2 => by omega, hF⟩
+      hw, hkey0, fun _ _ _ => rfl, fun a ha hna => absurd ha hna, fun a h1 h2 => by omega, hF, fun a ha => Or.inl ha⟩
   · have helt : e < h.next := hF e ((memF e).mpr (Or.inr (Or.inr (Or.inr rfl))))
     have hkalt : ka < h.next := hF ka ((memF ka).mpr (Or.inl rfl))
     have hkoalt : koa < h.next := hF koa ((memF koa).mpr (Or.inr (Or.inl rfl)))
@@ -552,7 +578,7 @@ theorem entryRespell_spec (h : Heap) (hw : h.WF) (e : Nat) (k ko : Str) (v : V) 
       subst hal
       have he1 : (alloc h (.str key)).2.cell e = some (.entry hv koa koa) := by rw [alloc_cell_lt h _ e helt]; exact he
       obtain ⟨h2, hwr, hn2, hc2⟩ := write_spec _ e _ (.entry hv koa h.next) he1
-      refine ⟨h2, koa :: h.next :: F1 ++ [e], ?_, ?_, ?_, ?_, ?_, ?_, ?_, ?_⟩
+      refine ⟨h2, koa :: h.next :: F1 ++ [e], ?_, ?_, ?_, ?_, ?_, ?_, ?_, ?_, ?_⟩
       · have hwr' := hwr
         simp only [alloc] at hwr'
         simp [entryRespell, read, he, hkoa, hsame, alloc, hwr']
@@ -593,6 +619,13 @@ theorem entryRespell_spec (h : Heap) (hw : h.WF) (e : Nat) (k ko : Str) (v : V) 
         · omega
         · have := hF1lt a h1; omega
         · omega
+      · intro a ha
+        simp only [List.cons_append, List.mem_cons, List.mem_append, List.mem_singleton, List.not_mem_nil, or_false] at ha
+        rcases ha with h1 | h1 | h1 | h1
+        · exact Or.inl ((memF a).mpr (Or.inl h1))
+        · exact Or.inr (by omega)
+        · exact Or.inl ((memF a).mpr (Or.inr (Or.inr (Or.inl h1))))
+        · exact Or.inl ((memF a).mpr (Or.inr (Or.inr (Or.inr h1))))
     · -- a separate original key: released and replaced
       have hkoa1 : (alloc h (.str key)).2.cell koa = some (.str ko) := by rw [alloc_cell_lt h _ koa hkoalt]; exact hkoa
       obtain ⟨g, hfr, hng, hcg⟩ := free_spec _ koa _ hkoa1
@@ -600,7 +633,7 @@ theorem entryRespell_spec (h : Heap) (hw : h.WF) (e : Nat) (k ko : Str) (v : V) 
         rw [hcg]; simp [hekoa, alloc_cell_lt h _ e helt, he]
       obtain ⟨h2, hwr, hn2, hc2⟩ := write_spec g e _ (.entry hv ka h.next) heg
       have hkane : ka ≠ koa := fun e' => hal e'.symm
-      refine ⟨h2, ka :: h.next :: F1 ++ [e], ?_, ?_, ?_, ?_, ?_, ?_, ?_, ?_⟩
+      refine ⟨h2, ka :: h.next :: F1 ++ [e], ?_, ?_, ?_, ?_, ?_, ?_, ?_, ?_, ?_⟩
       · have hfr' := hfr
         simp only [alloc] at hfr'
         simp [entryRespell, read, he, hkoa, hsame, alloc, hal, hfr', hwr]
@@ -647,6 +680,13 @@ theorem entryRespell_spec (h : Heap) (hw : h.WF) (e : Nat) (k ko : Str) (v : V) 
         · omega
         · have := hF1lt a h1; omega
         · omega
+      · intro a ha
+        simp only [List.cons_append, List.mem_cons, List.mem_append, List.mem_singleton, List.not_mem_nil, or_false] at ha
+        rcases ha with h1 | h1 | h1 | h1
+        · exact Or.inl ((memF a).mpr (Or.inl h1))
+        · exact Or.inr (by omega)
+        · exact Or.inl ((memF a).mpr (Or.inr (Or.inr (Or.inl h1))))
+        · exact Or.inl ((memF a).mpr (Or.inr (Or.inr (Or.inr h1))))
 
 /-- **remove hands the value to the caller**: detaching an entry releases its key blocks (the shared one once), the caller's
     `cif_value_free` then releases the value's components and the entry block: together exactly the entry's footprint -/
